@@ -319,3 +319,32 @@ pub fn run_c08(tier: Tier, replay_path: Option<String>) -> i32 {
     report.set("plans", json!(summary));
     report.finish()
 }
+
+fn c42_owns(sig: &str) -> bool {
+    sig.starts_with("vacuum") || sig.starts_with("doctor-vacuum") || sig.starts_with("verify") || sig.starts_with("panic:vacuum") || sig.starts_with("panic:verify") || sig.starts_with("open-failed") || sig.starts_with("frame-") || sig.starts_with("acked-frames-missing")
+}
+
+pub fn run_c42(tier: Tier, replay_path: Option<String>) -> i32 {
+    if let Some(p) = replay_path {
+        return replay(&p);
+    }
+    let mut report = Report::new(
+        "C42",
+        tier,
+        "exploration",
+        "every op sequence up to the depth bound over {put t, put e, put T (chunked), update with new text, payload-reusing update, delete, commit, close+open, vacuum, doctor{vacuum}, verify(deep)} from files with committed documents; around every vacuum the full logical observation (frame table with status/uri/metadata, content hash of every active frame, timeline, search answers for every stored word with and without sketch, vector answers) must be identical before and after, the reference model must still match (ids, metadata, exact content), the file must open and verify(deep) must be Passed; non-trivial = history with >= 1 vacuum; distinct = distinct histories",
+    );
+    let alphabet = s(&["put:t", "put:e", "upd:0:new", "upd:0:meta", "del:0", "del:1", "commit", "reopen", "vacuum", "doctor:vacuum", "verify"]);
+    let mk = |label: &str, alphabet: &Vec<String>, depth: usize, prefix: &[&str]| HistPlan { label: label.into(), prop: "C42", alphabet: alphabet.clone(), max_depth: depth, prefix: s(prefix), instant: false, worker_kind: "hist", extra: json!({}), keep: Some(c42_owns), exe: None, timeout_s: 120 };
+    let plans = match tier {
+        Tier::Quick => vec![mk("after-commit", &s(&["upd:0:new", "upd:0:meta", "del:1", "vacuum", "doctor:vacuum", "verify"]), 2, &["put:t", "put:e", "put:T", "commit"])],
+        Tier::Thorough => vec![mk("after-commit", &alphabet, 3, &["put:t", "put:e", "put:T", "commit"]), mk("after-updates", &alphabet, 3, &["put:t", "put:e", "commit", "upd:0:meta", "del:1", "commit"]), mk("fresh", &alphabet, 3, &[])],
+    };
+    let mut summary = Vec::new();
+    for p in &plans {
+        let st = explore(&mut report, p);
+        summary.push(json!({"plan": p.label, "depth": p.max_depth, "cases": st.cases, "redundant": st.redundant, "violating": st.violating}));
+    }
+    report.set("plans", json!(summary));
+    report.finish()
+}
